@@ -66,6 +66,15 @@ CHECKS = {
             "invalid programs compile to a fatal result, and live heap bytes, used code chunks, regions and descriptors do not grow with repetitions.",
             "legality rules are the documented ones (stated in the evidence); AddressSanitizer's allocator statistics; one object of each kind",
             "DESIGN.md 4/C16", True),
+    "C06": ("xfault", "fault_enumeration",
+            "exhaustive enumeration of fault vectors (failing call indexes up to k, persistent failure of call-class subsets) x configuration vectors on the real init/compile/run paths with link-time interposition of mkstemp/ftruncate/mmap",
+            "For every configuration (environment directories, ORC_CODE, backup function, executor kind, program kind) every set of up to "
+            "2 (quick) / 3 (thorough) failing calls among the first 40 mkstemp/ftruncate/mmap calls, and every persistently failing subset of "
+            "the five call classes (from start / from after init), is injected into a fresh process that initialises and then compiles, "
+            "runs and frees 8 times; results must equal independently computed expectations or the backup must have run exactly once, "
+            "valid programs must never turn fatal, nothing may crash, descriptors and mappings must not grow.",
+            "the three interposed calls are the complete set used to obtain executable memory; errno values are the documented ones",
+            "DESIGN.md 4/C06", True),
 }
 
 NOT_YET = {}
@@ -106,6 +115,8 @@ def main():
             "add_only": True,
         },
         "engines": [
+            {"name": "xfault", "path": "engines/xfault.c", "serves_properties": ["C06"],
+             "kind_free_text": "fault-vector explorer: interposed mkstemp/ftruncate/mmap answer from a decision vector, DFS over failing call indexes + persistent class subsets, fork per vector"},
             {"name": "xlife", "path": "engines/xlife.c", "serves_properties": ["C16"],
              "kind_free_text": "depth-first enumeration of legal lifecycle sequences from a reference state machine; fork per sequence from an initialised zygote (ASan build)"},
             {"name": "xsched", "path": "engines/xsched.c", "serves_properties": ["C08"],
